@@ -301,7 +301,19 @@ impl<'a> G<'a> {
             0..=9 => {
                 let eos = self.rng.chance(1, 4);
                 let m = *self.rng.pick(&["POST", "GET", "PUT"]);
-                let extra = if self.rng.chance(1, 6) { format!("{}={}", hex(b"content-length"), hex(b"10")) } else { "-".to_string() };
+                let extra = if self.rng.chance(1, 6) {
+                    format!("{}={}", hex(b"content-length"), hex(b"10"))
+                } else if self.rng.chance(1, 25) {
+                    // C13, send side: a message the API must refuse (or, for `te: trailers` alone, accept)
+                    match self.rng.below(4) {
+                        0 => format!("{}={},{}={}", hex(b"te"), hex(b"trailers"), hex(b"te"), hex(b"gzip")),
+                        1 => format!("{}={}", hex(b"te"), hex(b"gzip")),
+                        2 => format!("{}={}", hex(b"connection"), hex(b"close")),
+                        _ => format!("{}={}", hex(b"te"), hex(b"trailers")),
+                    }
+                } else {
+                    "-".to_string()
+                };
                 let via = if self.rng.chance(1, 3) { "cn_reqc" } else { "cn_req" };
                 let a = self.op(format!("{} {} {} /p{} {}", via, eos as u8, m, self.nslots, extra));
                 if let Some(rest) = Self::field(&a, "r=").strip_prefix("ok:") {
@@ -382,6 +394,9 @@ impl<'a> G<'a> {
                             3 => block.extend(lit(b"te", b"gzip")),               // TE other than trailers
                             4 => block.extend(lit(b"content-length", b"7")),      // body will (very probably) disagree
                             5 => block.extend(lit(b"content-length", b"0")),
+                            9 => block.extend([lit(b"content-length", b"5"), lit(b"content-length", b"7")].concat()), // conflicting
+                            10 => block.extend([lit(b"content-length", b"5"), lit(b"content-length", b"5")].concat()), // repeated, same
+                            11 => block.extend(lit(b"content-length", b"")),      // no value
                             6 => block = [lit(b"x-a", b"1"), vec![0x88]].concat(), // pseudo after regular
                             7 => block.extend(vec![0x88]),                        // duplicated :status
                             8 => block = vec![0x89],                              // 204
@@ -536,11 +551,22 @@ impl<'a> G<'a> {
                     5 => block.extend_from_slice(&[0x00, 0x02, b't', b'e', 0x04, b'g', b'z', b'i', b'p']),
                     6 => block.push(0x82),                                              // duplicated :method
                     7 => block = vec![0x82, 0x86, 0x04, 0x00, 0x41, 0x01, b'a'],        // empty :path
+                    8 => block = vec![0x82, 0x86],                                      // :method, :scheme and nothing else
+                    9 => block = vec![0x02, 0x07, b'C', b'O', b'N', b'N', b'E', b'C', b'T'], // CONNECT without :authority
+                    10 => block = vec![0x02, 0x07, b'C', b'O', b'N', b'N', b'E', b'C', b'T', 0x41, 0x03, b'a', b':', b'1'], // a proper CONNECT
                     _ => {}
                 }
                 let mut odd = false;
                 if self.rng.chance(1, 8) {
                     block.extend_from_slice(&[0x0f, 0x0d, 0x02, b'1', b'0']); // content-length: 10
+                    odd = true;
+                    match self.rng.below(8) {
+                        0 => block.extend_from_slice(&[0x0f, 0x0d, 0x02, b'1', b'0']), // the same value again
+                        1 => block.extend_from_slice(&[0x0f, 0x0d, 0x01, b'7']),       // another value
+                        _ => {}
+                    }
+                } else if self.rng.chance(1, 40) {
+                    block.extend_from_slice(&[0x0f, 0x0d, 0x00]);                      // content-length with an empty value
                     odd = true;
                 }
                 let iws = self.our_iws;
